@@ -23,6 +23,22 @@ func (x *Exec) onHeapHavoc(st *State)                                           
 func (x *Exec) onPanic(fr *Frame, st *State, e ast.Node)                        {}
 func (x *Exec) onGo(fr *Frame, st *State, s *ast.GoStmt, pc *preparedCall) {
 	x.Abstractions["go statement: the started goroutine is not executed here"] = true
+	// ghost: how often a function value was started as a goroutine, and with which first argument
+	var f *Term
+	switch {
+	case pc.fv != nil && pc.fv.Sym != nil:
+		f = pc.fv.Sym
+	case pc.closure != nil:
+		f = x.closureID(FuncV{Closure: pc.closure})
+	}
+	if f != nil {
+		gc := st.ghostArr("gocount", SInt)
+		st.setGhostArr("gocount", Store(gc, f, Add(Select(gc, f), IntLit(1))))
+		if len(pc.args) > 0 {
+			la := st.ghostArr("golastarg", SInt)
+			st.setGhostArr("golastarg", Store(la, f, x.identityOf(st, pc.args[0])))
+		}
+	}
 }
 func (x *Exec) onChanOp(fr *Frame, st *State, n ast.Node, op string) {
 	if op == "send" || op == "recv" {
